@@ -69,6 +69,9 @@ func genScript(r *vh.Rng, mode string, thorough bool) []directive {
 	return out
 }
 
+// genWbuf: the client's write-buffer size as read from the source (0: unknown)
+var genWbuf int
+
 func genSpec(r *vh.Rng, idx int, thorough bool) scenarioSpec {
 	sp := scenarioSpec{Seed: r.U64()}
 	if r.Chance(60) {
@@ -187,6 +190,9 @@ func genSpec(r *vh.Rng, idx int, thorough bool) scenarioSpec {
 			pre = 0 // process() flushes only now and then: "after j frames" may never come
 		}
 		sp.Script = append([]directive{{Stall: true, Frames: pre}}, rest...)
+		if genWbuf > 0 && r.Chance(50) {
+			sp.PostBig = genWbuf + 1 + r.Intn(512*1024)
+		}
 	}
 	sp.Name = fmt.Sprintf("%s/%d senders/%d faults", sp.Mode, sp.Senders, len(sp.Script))
 	if len(sp.Script) > 0 && sp.Script[0].Stall {
@@ -211,8 +217,24 @@ func genSpec(r *vh.Rng, idx int, thorough bool) scenarioSpec {
 }
 
 // fixed scenarios: the corners named in the property statement, always run
-func fixedSpecs(seed uint64, thorough bool, waitMs int) []scenarioSpec {
+func fixedSpecs(seed uint64, thorough bool, waitMs, wbuf int) []scenarioSpec {
 	out := fixedSpecs0(seed)
+	if wbuf > 0 {
+		// size mixes around the write buffer within one unflushed run: "in order" on the received stream
+		mixes := sizeMixes(wbuf)
+		out = append(out, mixSpec("queue", true, 0, mixes[0]), mixSpec("queue", true, 1, mixes[1]), mixSpec("queue", false, 2, mixes[2]), mixSpec("direct", false, 1, mixes[1]))
+		if thorough {
+			out = append(out, mixSpec("queue", true, 2, mixes[2]), mixSpec("queue", true, 3, mixes[3]), mixSpec("queue", false, 1, mixes[1]), mixSpec("direct", false, 3, mixes[3]))
+		}
+		// after a write timeout that left a fragment on a connection that stays open, the next frames are
+		// larger than the write buffer
+		a, b := stallSpec("direct", 1, 1500<<10, 1), stallSpec("direct", 4, 1200<<10, 0)
+		a.PostBig, b.PostBig = wbuf+200*1024, wbuf+1
+		a.Name += fmt.Sprintf(", then %d-byte frames", a.PostBig)
+		b.Name += fmt.Sprintf(", then %d-byte frames", b.PostBig)
+		a.Seed, b.Seed = a.Seed+5, b.Seed+5
+		out = append(out, a, b)
+	}
 	// the collector stalls (no close, no reset): a write deadline expires mid-frame; frames smaller than
 	// the 2 MiB buffered writer fail in Flush (the connection stays), larger ones inside send() (Close)
 	out = append(out, stallSpec("direct", 1, 1500<<10, 1), stallSpec("direct", 4, 1200<<10, 0), stallSpec("queue", 1, 1500<<10, 0))
@@ -322,6 +344,111 @@ func internalWaitMs(repo string) (int, string) {
 	return best, ""
 }
 
+// writeBufferSize: the size of the client's buffered writer, read from its source: the second argument of
+// bufio.NewWriterSize in Connect() (a constant expression, possibly through a named constant), or bufio's
+// default for bufio.NewWriter.
+func writeBufferSize(repo string) (int, string) {
+	fset := token.NewFileSet()
+	f, err := parser.ParseFile(fset, filepath.Join(repo, "net", "oneway", "OneWayTcpClient.go"), nil, 0)
+	if err != nil {
+		return 0, err.Error()
+	}
+	consts := map[string]ast.Expr{}
+	var arg ast.Expr
+	def := false
+	ast.Inspect(f, func(n ast.Node) bool {
+		switch x := n.(type) {
+		case *ast.ValueSpec:
+			for i, name := range x.Names {
+				if i < len(x.Values) {
+					consts[name.Name] = x.Values[i]
+				}
+			}
+		case *ast.CallExpr:
+			if s, ok := x.Fun.(*ast.SelectorExpr); ok {
+				if id, ok := s.X.(*ast.Ident); ok && id.Name == "bufio" {
+					if s.Sel.Name == "NewWriterSize" && len(x.Args) == 2 {
+						arg = x.Args[1]
+					} else if s.Sel.Name == "NewWriter" {
+						def = true
+					}
+				}
+			}
+		}
+		return true
+	})
+	if arg == nil {
+		if def {
+			return 4096, ""
+		}
+		return 0, "no bufio.NewWriterSize / NewWriter call found"
+	}
+	var eval func(e ast.Expr, depth int) (int64, bool)
+	eval = func(e ast.Expr, depth int) (int64, bool) {
+		if depth > 8 {
+			return 0, false
+		}
+		switch x := e.(type) {
+		case *ast.BasicLit:
+			v, err := strconv.ParseInt(x.Value, 0, 64)
+			return v, err == nil
+		case *ast.ParenExpr:
+			return eval(x.X, depth+1)
+		case *ast.CallExpr: // a conversion: int(x)
+			if len(x.Args) == 1 {
+				return eval(x.Args[0], depth+1)
+			}
+		case *ast.Ident:
+			if c, ok := consts[x.Name]; ok {
+				return eval(c, depth+1)
+			}
+		case *ast.BinaryExpr:
+			a, ok1 := eval(x.X, depth+1)
+			b, ok2 := eval(x.Y, depth+1)
+			if ok1 && ok2 {
+				switch x.Op {
+				case token.MUL:
+					return a * b, true
+				case token.ADD:
+					return a + b, true
+				case token.SUB:
+					return a - b, true
+				case token.SHL:
+					return a << uint(b), true
+				}
+			}
+		}
+		return 0, false
+	}
+	v, ok := eval(arg, 0)
+	if !ok || v <= 0 || v > 1<<30 {
+		return 0, "the size argument of bufio.NewWriterSize is not a constant this harness can evaluate"
+	}
+	return int(v), ""
+}
+
+// sizeMix: frames of sizes around the write buffer B (tiny, just below, equal, just above, well above) in
+// several orders within one unflushed run.
+func sizeMixes(B int) [][]int {
+	t := 64
+	return [][]int{
+		{t, t + 9, B + 1, t + 3},                         // small, small, LARGE, small: the demo order
+		{B - 1, t, B, B + 1, t + 5, B + 700*1024, t + 1}, // every boundary once
+		{B + 1, t, B + 1, B, t + 7, B - 1},               // large first, equal in the middle
+		{t, B / 2, B/2 + 1, t + 2, B + 4096, B - 4096},   // two that fill the buffer exactly, then above / below
+	}
+}
+
+func mixSpec(mode string, batch bool, k int, sizes []int) scenarioSpec {
+	sp := scenarioSpec{Mode: mode, Senders: 1, PreMax: 100, Post: 2 * len(sizes), Sizes: sizes, Batch: batch, Seed: uint64(811 + 13*k + len(mode))}
+	how := "SendFlush(false)…SendFlush(true)"
+	if batch {
+		how = "Put…Put, SendAndClear (no process())"
+	}
+	sp.Name = fmt.Sprintf("fixed %s/1 sender/size mix %d around the write buffer, %s", mode, k, how)
+	return sp
+}
+
 // afterIdle: the client is idle for longer than every internal wait (k times), then packs arrive while
 // process() is busy (gate: its first makeData is held back while the others are queued) or back to back.
 func afterIdle(mode string, senders, perSender, waitMs, k int, gate bool) scenarioSpec {
@@ -344,7 +471,7 @@ func stallSpec(mode string, senders, size, frames int) scenarioSpec {
 
 func canon(o *observation, an *analysis) string {
 	b, _ := json.Marshal(o.Spec.Script)
-	return fmt.Sprintf("%s|%d|cap%d|big%d/%d|rc%v%v|idle%d/%d|ac%d|%s|conns%d|delivered%d", o.Spec.Mode, o.Spec.Senders, o.Spec.QueueCap, o.Spec.Big, o.Spec.BigAll, o.Spec.Reconfig, o.Spec.Stall, o.Spec.IdleMs, o.Spec.PreIdleMs, o.Spec.ApplyConfigs, b, len(o.Conns), len(an.Delivered))
+	return fmt.Sprintf("%s|%d|cap%d|big%d/%d|rc%v%v|idle%d/%d|ac%d|%s|conns%d|delivered%d", o.Spec.Mode, o.Spec.Senders, o.Spec.QueueCap, o.Spec.Big, o.Spec.BigAll, o.Spec.Reconfig, o.Spec.Stall, o.Spec.IdleMs, o.Spec.PreIdleMs+len(o.Spec.Sizes)*7+o.Spec.PostBig, o.Spec.ApplyConfigs, b, len(o.Conns), len(an.Delivered))
 }
 
 func main() {
@@ -355,7 +482,7 @@ func main() {
 		return
 	}
 	rng := vh.NewRng(env.Seed)
-	rep.Rule = "a case is one scenario: mode (direct|queue) x senders (1|4|16) x entry points (Send, SendFlush(false), SendFlush(true), per-send options) x fault script (per accepted connection: close after j whole frames + m bytes, FIN or RST; refuse k connects) x pack sizes (up to > the 2 MiB write buffer) x queue reconfiguration / stalled consumer under a backlog x idle longer than the write timeout x idle longer than every internal wait of the client before traffic (then a burst, the consumer busy or not) x a collector that stops reading until a write deadline expires inside a frame and then reads on, on the same connection (frames below and above the write buffer), run on the real client (in a child process) against a loopback collector stand-in; non-trivial = at least one frame was received and (a fault was carried out or several senders ran); distinct by (mode, senders, queue capacity, sizes, reconfiguration, script, connections accepted, frames received)"
+	rep.Rule = "a case is one scenario: mode (direct|queue) x senders (1|4|16) x entry points (Send, SendFlush(false), SendFlush(true), per-send options) x fault script (per accepted connection: close after j whole frames + m bytes, FIN or RST; refuse k connects) x pack sizes (up to > the 2 MiB write buffer) x queue reconfiguration / stalled consumer under a backlog x idle longer than the write timeout x idle longer than every internal wait of the client before traffic (then a burst, the consumer busy or not) x a collector that stops reading until a write deadline expires inside a frame and then reads on, on the same connection (frames below and above the write buffer) x frames of sizes around the client's write buffer (read from its source: tiny, just below, equal, just above) mixed in several orders within one unflushed run (SendFlush(false)…SendFlush(true), Put…Put + SendAndClear), run on the real client (in a child process) against a loopback collector stand-in; non-trivial = at least one frame was received and (a fault was carried out or several senders ran); distinct by (mode, senders, queue capacity, sizes, reconfiguration, script, connections accepted, frames received)"
 
 	var specs []scenarioSpec
 	replayD42, replayD70, replayD71 := false, false, false
@@ -366,7 +493,12 @@ func main() {
 		if why != "" {
 			rep.Note("idle-longer-than-every-internal-wait scenarios not run: %s", why)
 		}
-		specs = fixedSpecs(env.Seed, env.Thorough, waitMs)
+		wbuf, why2 := writeBufferSize(env.Repo)
+		if why2 != "" {
+			rep.Note("size-mix scenarios not run: %s", why2)
+		}
+		specs = fixedSpecs(env.Seed, env.Thorough, waitMs, wbuf)
+		genWbuf = wbuf
 		n := 150
 		if env.Thorough {
 			n = 800
